@@ -734,9 +734,6 @@ def conseq_instance(fname, nums, want=None):
                 continue
             used = {x.data for r in repl if r is not None
                     for x in nodes.dfs(r) if x.is_leaf()}
-            if cn == 'ReplaceByVariable' and (used & bound) - scope:
-                oos += 1        # known finding C16-bound-symbol-out-of-scope
-                continue
             if cn == 'IntroduceFreshVariable' and any(
                     x.is_leaf() and x.data in usersorts
                     for v in p.fresh_vars if len(v) > 2
